@@ -43,8 +43,8 @@ def gen_sysworld(rng, small=False):
         items = [f"{letter}{j}x" for j in range(n)] if kind == "str" else [100 * (ord(letter) - 96) + j for j in range(n)]
         if kind == "float":
             # e.g. a 'share' or 'size class' dimension; whole numbers are written without a decimal point in the files
-            factor = {"a": 1.0, "b": 2.0, "c": 4.0, "e": 8.0}[letter]  # pairwise different item sets across dimensions
-            items = [x * factor for x in [[0.5, 1.0, 2.0], [0.25, 3.0, 7.5], [10.0, 0.125, 4.0]][(ord(letter) + n) % 3][:n]]
+            offset = {"a": 0.0, "b": 16.0, "c": 32.0, "e": 48.0}[letter]  # pairwise disjoint item sets across dimensions
+            items = [x + offset for x in [[0.5, 1.0, 2.0], [0.25, 3.0, 7.5], [10.0, 0.125, 4.0]][(ord(letter) + n) % 3][:n]]
         if kind == "str":
             flavour = rng.weighted([("plain", 5), ("numeric_looking", 3), ("awkward", 1)])
             if flavour == "numeric_looking":
